@@ -79,8 +79,12 @@ type verdict struct {
 	evals int
 }
 
-func (v *verdict) fail(format string, a ...interface{})   { v.bad = append(v.bad, fmt.Sprintf(format, a...)) }
-func (v *verdict) differ(format string, a ...interface{}) { v.drift = append(v.drift, fmt.Sprintf(format, a...)) }
+func (v *verdict) fail(format string, a ...interface{}) {
+	v.bad = append(v.bad, fmt.Sprintf(format, a...))
+}
+func (v *verdict) differ(format string, a ...interface{}) {
+	v.drift = append(v.drift, fmt.Sprintf(format, a...))
+}
 
 // what the code's registry says about a type code
 type typeView struct {
